@@ -146,6 +146,11 @@ def run(ctx):
     ctx.count("payload_keys", len(payload))
     sf_res = fold_sample(repo, resumed=True, final=False)
     lpr = sf_res.loop
+    # locals are handed to the parameter of the same meaning (a swap pickles the wrong thing under the key)
+    expect = {"samples": "samples", "iteration": "iterations", "beta": "beta", "min_step": "min_step"}
+    wrong = {p_: a_ for p_, a_ in passed.items() if p_ in expect and a_ != expect[p_]}
+    ctx.decide(not wrong, "C11.state", sample.ident, loc_of(sample, call), "each loop-carried local is passed to the payload parameter of the same meaning",
+               f"build_checkpoint_state receives {wrong}: the payload stores a loop variable under another variable's key", disc="correspondence")
     for v in carried:
         params = [p for p, a in passed.items() if a == v]
         in_payload = bool(params) and any(T.atom(p) in set(T.subterms(val)) for p in params for val in payload.values())
@@ -179,6 +184,22 @@ def run(ctx):
     missing = sorted(k for k in read_keys if k not in all_keys | set(extra_base))
     ctx.decide(not missing, "C11.keys", rfc.ident, loc_of(rfc), f"every key read on restore ({sorted(read_keys)}) is written by the checkpoint payload",
                f"restore reads key(s) {missing} that the payload never writes (they silently fall back to defaults on resume)")
+
+    # ---- provenance of everything restore_from_checkpoint hands back
+    def has_get(t, key):
+        return t is not None and any(s_ and s_[0] == "f" and s_[1] == "method:get" and len(s_[2]) >= 2 and s_[2][1] == T.K(key) for s_ in T.subterms(t))
+    rr_ = T.strip_raise(rr)
+    outs = {}
+    if rr_[0] == "t" and len(rr_[1]) == 3:
+        outs = {"samples": rr_[1][0], "beta": rr_[1][1], "iteration": rr_[1][2]}
+    outs["history"] = evr.heap.get((SELF, "history"))
+    outs["min_step"] = evr.heap.get((SELF, "_restored_min_step"))
+    rng_store = [st_ for st_ in evr.stores if st_[1] == "state" and any(x_ == self_attr("rng") for x_ in T.subterms(st_[0]))]
+    outs["rng_state"] = rng_store[0][2] if rng_store else None
+    for key_, val_ in outs.items():
+        others = [k_ for k_ in ("samples", "beta", "iteration", "history", "min_step", "rng_state") if k_ != key_ and has_get(val_, k_) and not (key_ == "samples" and k_ == "beta")]
+        ctx.decide(has_get(val_, key_) and not others, "C11.restore", rfc.ident, loc_of(rfc), f"restored {key_} is read from the checkpoint's '{key_}' entry",
+                   f"restored {key_} is {T.show(val_)[:120] if val_ else 'not set'}: it is not read from the checkpoint's '{key_}' entry" + (f" (it reads {others})" if others else ""), disc=key_)
 
     # ---- self attributes carried across iterations, per concrete class
     n_cls = 0
@@ -238,6 +259,11 @@ def run(ctx):
         g0 = fr0.eval(en[0].test, State())
         parts = list(g0[1]) if g0[0] == "and" else [g0]
         cur = [p_ for p_ in parts if p_[0] == "cmp" and any(s_ and s_[0] == "f" and s_[1] == "len" for s_ in T.subterms(p_)) and any(s_ == T.atom("n_final_samples") for s_ in T.subterms(p_))]
+        if cur:
+            c0 = cur[0]
+            # enlargement exactly when the sizes differ
+            if not (c0[1] == "!=" and len(c0) == 3):
+                cur = []
         ctx.decide(bool(cur), "C11.idem", sample.ident, loc_of(sample, en[0]),
                    "the final-sample enlargement is guarded by the *current* population size, so a run resumed from the final checkpoint is not enlarged again",
                    f"the final-sample enlargement is guarded by {T.show(g0)[:160]}, which does not look at the current population: resuming from the final (already enlarged) "
@@ -252,6 +278,22 @@ def run(ctx):
                f"on the resumed path {muts[0].callee[7:] if muts else ''}() is applied to restored state "
                f"({T.show(muts[0].args[0])[-60:] if muts else ''}) before the loop: the resumed run diverges from the uninterrupted one",
                disc=(muts[0].args[0][2] if muts and muts[0].args[0][0] == "attr" else ""))
+
+    # ---- a run resumed from a finished checkpoint does not iterate again
+    if lpr is not None:
+        guard_names = [n for n in walk_no_nested(sample.node) if isinstance(n, ast.If) and loop_node in n.body]
+        gname = guard_names[0].test.id if guard_names and isinstance(guard_names[0].test, ast.Name) else None
+        gval = lpr["pre"].get(gname) if gname else None
+        okf = False
+        if gval is not None and gval[0] == "phi" and gval[1][0] == "cmp" and gval[1][1] == ">=" and len(gval[1]) == 3 \
+                and T.linear_form(gval[1][2]).get((), 0) == -1:
+            d_ = T.add(gval[1][2], T.ONE)
+            okf = T.select(gval, gval[1], True) == T.FALSE and T.select(gval, gval[1], False) == T.TRUE and any(
+                s_ and s_[0] == "attr" and s_[2] == "beta" for s_ in T.subterms(d_))
+        fresh_g = sf_fresh.loop["pre"].get(gname) if gname and sf_fresh.loop else None
+        ctx.decide(okf and fresh_g == T.TRUE, "C11.finished", sample.ident, loc_of(sample, guard_names[0] if guard_names else loop_node),
+                   "the loop is skipped exactly when the restored history already ends at beta >= 1 (a fresh run always iterates)",
+                   f"loop guard on the resumed path is {T.show(gval)[:200] if gval else None} (fresh: {T.show(fresh_g) if fresh_g else None}): a finished run resumed from its last checkpoint iterates again, or an unfinished one does not")
 
     # ---- the checkpoint is cut after every loop-carried write
     g = CFG(sample.node)
@@ -286,7 +328,7 @@ def run(ctx):
 
     # ---- source dispatch
     brf = base.methods.get("restore_from_checkpoint")
-    evb, rb = fold(repo, brf, base, max_depth=1)
+    evb, rb = fold(repo, brf, base, max_depth=1, no_inline={"aspire.samplers.base:Sampler.load_checkpoint_from_file", "aspire.samples:BaseSamples.from_samples"})
     src = T.atom(brf.params[1])
     kinds = {}
     for e in evb.events:
@@ -295,6 +337,17 @@ def run(ctx):
     conds = [s for s in T.subterms(rb) if s and s[0] == "f" and s[1] == "isinstance" and s[2][0] == src]
     names = {c[2][1][1].rsplit(".", 1)[-1] for c in conds if c[2][1][0] == "ref"}
     raises = any(l == T.RAISE for l in T.phi_leaves(_state_term(evb, brf)))
+    st_term = T.strip_raise(_state_term(evb, brf))
+    def isinst(tname):
+        return ("f", "isinstance", (src, ("ref", f"builtins.{tname}")), ())
+    m_str = T.select(st_term, isinst("str"), True)
+    rest = T.select(st_term, isinst("str"), False)
+    m_bytes = T.select(rest, isinst("bytes"), True)
+    m_dict = T.select(T.select(rest, isinst("bytes"), False), isinst("dict"), True)
+    okm = m_str[0] == "f" and "load_checkpoint_from_file" in m_str[1] and src in m_str[2] \
+        and m_bytes[0] == "f" and m_bytes[1].endswith("pickle.loads") and m_bytes[2] == (src,) and m_dict == src
+    ctx.decide(okm, "C11.src", brf.ident, loc_of(brf), "str -> load_checkpoint_from_file(source); bytes -> pickle.loads(source); dict -> used as is",
+               f"checkpoint source dispatch is {T.show(st_term)[:260]}", disc="mapping")
     ctx.decide({"str", "bytes", "dict"} <= names, "C11.src", brf.ident, loc_of(brf),
                "restore_from_checkpoint dispatches on str (file), bytes (pickle) and dict sources",
                f"restore_from_checkpoint only dispatches on {sorted(names)}")
@@ -409,6 +462,13 @@ MUTANTS = [
     M("restored iteration dropped", _B, "samples, beta, iterations = self.restore_from_checkpoint(\n                resume_from\n            )", "samples, beta, _ = self.restore_from_checkpoint(\n                resume_from\n            )\n            iterations = 0", "C11.state"),
 ]
 MUTANTS += [
+    M("payload arguments swapped", _B, "samples, iterations, beta, min_step=min_step", "iterations, samples, beta, min_step=min_step", "C11.state"),
+    M("restored iteration read from the wrong key", _B, "iteration = state.get(\"iteration\", 0)", "iteration = state.get(\"iter\", 0)", ("C11.restore", "C11.keys")),
+    M("restored beta read from the state root only", _B, "beta = meta.get(\"beta\", None)", "beta = meta.get(\"min_step\", None)", "C11.restore"),
+    M("history default replaces the stored one", _B, "self.history = state.get(\"history\", SMCHistory())", "self.history = SMCHistory()", "C11.restore"),
+    M("bytes source treated as a path", _SB, "if isinstance(source, str):\n            state = self.load_checkpoint_from_file(source)\n        elif isinstance(source, bytes):\n            state = pickle.loads(source)", "if isinstance(source, bytes):\n            state = self.load_checkpoint_from_file(source)\n        elif isinstance(source, str):\n            state = pickle.loads(source)", "C11.src"),
+    M("finished run iterates again on resume", _B, "if last_beta >= 1.0:\n                run_smc_loop = False", "if last_beta > 1.0:\n                run_smc_loop = False", "C11.finished"),
+    M("enlargement when sizes are equal", _B, "if n_final_samples is not None and len(samples.x) != n_final_samples:", "if n_final_samples is not None and len(samples.x) == n_final_samples:", "C11.idem"),
     M("enlargement guarded by the requested sizes", _B, "if n_final_samples is not None and len(samples.x) != n_final_samples:", "if n_final_samples is not None and n_final_samples != n_samples:", "C11.idem"),
     M("history aliased into the checkpoint", _B, "history_copy = copy.deepcopy(self.history)", "history_copy = self.history", "C11.snapshot"),
     M("history shallow-copied into the checkpoint", _B, "history_copy = copy.deepcopy(self.history)", "history_copy = copy.copy(self.history)", "C11.snapshot"),
